@@ -19,6 +19,11 @@ import json,sys
 m=json.load(open('$d/meta.json'))
 b=m.get('breaks') or [m.get('property')]
 print(' '.join(b))")
+  if python3 -c "import json,sys; sys.exit(0 if json.load(open('$d/meta.json')).get('expect')=='undecided' else 1)"; then
+    echo "| $(basename $d) | $props | UNDECIDED BY DESIGN (see meta.json: the statements can be read both ways for this cell) |" >> $out.tmp
+    echo "UNDECIDED $(basename $d)"
+    continue
+  fi
   for p in $props; do
     r=$(scripts/seedcheck.sh "$d" "$p" 2>&1 | grep -E "^(CAUGHT|MISSED|TROUBLE|seedcheck)" | head -1 | cut -c1-220)
     echo "| $(basename $d) | $p | ${r//|//} |" >> $out.tmp
